@@ -1,11 +1,16 @@
 import TinsModel.Ack.Model
 import TinsModel.Ack.Spec
+import TinsModel.Ack.Wire
 import Driver.Util
 /- line-protocol driver for AckTracker (property C19): model mode and spec (oracle) mode.
    ops: init <ack> <0|1> | finit <ack> | new | usesack | pkt <ack> [-|edges..] | pktw <ack> [-|edges..] | pktn | opt <ack> <hex>
-        | q <seq> <len>            (numbers are absolute positions; the model reduces them mod 2^32) -/
+        | q <seq> <len>            (numbers are absolute positions; the model reduces them mod 2^32)
+        | segw <ack> <layout> <plen> [edges..]   the packet encoded by the reference encoder `Ack.refSegment`, then
+                                                 `Ack.processWire` (= `process_packet(TCP(bytes))`)
+        | wire <hex>                             arbitrary bytes through `Ack.processWire`
+        | icl | ins | insro | del | sub | has | hasp   the interval-set parameter on its own -/
 namespace Driver.C19
-open Tins Tins.Ack Driver
+open Tins Tins.Ack Driver Tins.Wire.Transport
 
 def showIvs (s : ISet) : String := joinWith "," (s.map (fun i => s!"{i.lo}-{i.hi}"))
 
@@ -39,11 +44,76 @@ def parseEdges : List String → Option (Option (List Nat))
   | ["-"] => some (some [])
   | ws => (ws.mapM String.toNat?).map (fun es => some (es.map wrap32))
 
+/-! ### reference encoder input: the option layout of a `segw` line -/
+
+/-- one option per letter (harness/c19_acktracker.cpp `ref_segment`) -/
+def layoutOpt (edges : List Nat) : Char → Option (List TcpOpt)
+  | '.' => some []
+  | 'n' => some [⟨1, 0, []⟩]
+  | 'E' => some [⟨0, 0, []⟩]
+  | 'm' => some [⟨2, 2, [0x05, 0xb4]⟩]
+  | 'w' => some [⟨3, 1, [7]⟩]
+  | 'k' => some [⟨4, 0, []⟩]
+  | 't' => some [⟨8, 8, [0, 0, 0, 1, 0, 0, 0, 2]⟩]
+  | 'x' => some [⟨30, 3, [0xaa, 0xbb, 0xcc]⟩]
+  | 'S' => let d := encodeEdges edges; if d.length > 253 then none else some [⟨5, d.length, d⟩]
+  | 'T' => let d := encodeEdges edges
+           if d.isEmpty || d.length - 1 > 253 then none else some [⟨5, d.length - 1, d.dropLast⟩]
+  | _ => none
+
+def layoutOpts (layout : String) (edges : List Nat) : Option (List TcpOpt) :=
+  (layout.toList.mapM (layoutOpt edges)).map List.flatten
+
+/-- the fixed header fields of the reference segment: ports 1234 → 80, sequence number 1001, ACK flag, window 32678 -/
+def refHdr (ack : Nat) : Tcp :=
+  { sport := 1234, dport := 80, seq := 1001, ackSeq := wrap32 ack, doff := 0, res1 := 0, flags8 := 0x10,
+    window := 32678, check := 0, urgPtr := 0, opts := [] }
+
+def segwBytes (ack : Nat) (layout : String) (plen : Nat) (edges : List Nat) : Option Bytes :=
+  if plen > 64 then none else
+  match layoutOpts layout edges with
+  | none => none
+  | some os => if (refOptArea os).length > 40 then none
+               else some (refSegment (refHdr ack) os (List.replicate plen 0xab))
+
+def showCard (s : ISet) : String := s!"ivs={showIvs s} n={s.count} card={wrap32 s.card}"
+
 /-- model state: the tracker, and whether it is the one owned by a `Flow` (`finit`): `Flow::process_packet` does not
     let the `malformed_option` of an undecodable SACK option escape (the segment still has to be processed) -/
 structure MState where
   t : Tracker := Tracker.default
   inFlow : Bool := false
+  iset : ISet := []                 -- the `icl` stream's own interval set
+
+/-- `process_packet(TCP(bytes))` on the tracker under test; `hex` is appended to the answer of a `segw` line -/
+def packetW (tag : String) (st : MState) (b : Bytes) (hex : String) : MState × String :=
+  let (t', res) := processWire st.t b
+  let st' := { st with t := t' }
+  match res with
+  | .done => (st', s!"{tag} {showState t'} grid={showGrid t'}{hex}")
+  | .malformedOption =>
+    if st.inFlow then (st', s!"{tag} {showState t'} grid={showGrid t'}{hex}")
+    else (st', s!"throw malformed_option {showState t'}{hex}")
+  | .malformedPacket => (st', s!"throw malformed_packet {showState t'}{hex}")
+  | .other w => (st', s!"throw {w} {showState t'}{hex}")
+
+def iclStep (st : MState) : List String → Option (MState × String)
+  | ["icl"] => some ({ st with iset := [] }, s!"icl {showCard []}")
+  | [op, a, b] => match a.toNat?, b.toNat? with
+    | some lo, some hi =>
+      let lo := wrap32 lo; let hi := wrap32 hi
+      if op == "insro" then let s' := insertRO st.iset lo hi; some ({ st with iset := s' }, s!"insro {showCard s'}")
+      else if !(op == "ins" || op == "del" || op == "sub" || op == "has") then none
+      else if lo > hi then some (st, "bad-op")
+      else if op == "ins" then let s' := insertIvl st.iset lo hi; some ({ st with iset := s' }, s!"ins {showCard s'}")
+      else if op == "has" then
+        some (st, s!"has {showCard st.iset} r={if containsIvl st.iset lo hi then "1" else "0"}")
+      else let s' := eraseIvl st.iset lo hi; some ({ st with iset := s' }, s!"{op} {showCard s'}")
+    | _, _ => none
+  | ["hasp", a] => match a.toNat? with
+    | some p => some (st, s!"hasp {showCard st.iset} r={if ISet.mem st.iset (wrap32 p) then "1" else "0"}")
+    | none => none
+  | _ => none
 
 def packet (tag : String) (st : MState) (ack : Nat) (sack : SackOpt) : MState × String :=
   let (t', thrown) := processPacket st.t (wrap32 ack) sack
@@ -63,16 +133,16 @@ def stepT (t : Tracker) (line : String) : Tracker × String :=
   | "usesack" :: _ => let t' := { t with useSack := true }; (t', s!"usesack {showState t'}")
   | "pkt" :: a :: es => match a.toNat?, parseEdges es with
     | some k, some e => if es.length > 60 then (t, "bad-op") else
-      let r := packet "pkt" ⟨t, false⟩ k (match e with | none => .absent | some l => decodeSack (encodeEdges l)); (r.1.t, r.2)
+      let r := packet "pkt" { t := t } k (match e with | none => .absent | some l => decodeSack (encodeEdges l)); (r.1.t, r.2)
     | _, _ => (t, "bad-op")
   | "pktw" :: a :: es => match a.toNat?, parseEdges es with
     | some k, some e => if es.length > 8 || es == ["-"] then (t, "bad-op") else
-      let r := packet "pktw" ⟨t, false⟩ k (match e with | none => .absent | some l => decodeSack (encodeEdges l)); (r.1.t, r.2)
+      let r := packet "pktw" { t := t } k (match e with | none => .absent | some l => decodeSack (encodeEdges l)); (r.1.t, r.2)
     | _, _ => (t, "bad-op")
   | "pktn" :: _ => (t, s!"pktn {showState t} grid={showGrid t}")
   | "opt" :: a :: h :: _ => match a.toNat?, parseHex h with
     | some k, some d => if d.length > 255 then (t, "bad-op") else
-      let r := packet "opt" ⟨t, false⟩ k (decodeSack d); (r.1.t, r.2)
+      let r := packet "opt" { t := t } k (decodeSack d); (r.1.t, r.2)
     | _, _ => (t, "bad-op")
   | "q" :: s :: n :: _ => match s.toNat?, n.toNat? with
     | some s, some n =>
@@ -82,14 +152,30 @@ def stepT (t : Tracker) (line : String) : Tracker × String :=
 
 def step (st : MState) (line : String) : MState × String :=
   match words line with
+  | "segw" :: a :: layout :: pl :: es =>
+    match a.toNat?, pl.toNat?, es.mapM String.toNat? with
+    | some k, some plen, some e =>
+      match segwBytes k layout plen (e.map wrap32) with
+      | some b => packetW "segw" st b s!" hex={toHex b}"
+      | none => (st, "bad-op")
+    | _, _, _ => (st, "bad-op")
+  | ["wire", h] =>
+    match parseHex h with
+    | some b => if st.inFlow || b.length > 200 then (st, "bad-op") else packetW "wire" st b ""
+    | none => (st, "bad-op")
   | "opt" :: a :: h :: _ =>
     -- the only operation whose outcome depends on who owns the tracker
     match a.toNat?, parseHex h with
     | some k, some d => if d.length > 255 then (st, "bad-op") else packet "opt" st k (decodeSack d)
     | _, _ => (st, "bad-op")
-  | w :: _ =>
+  | w :: ws =>
+    if w == "icl" || w == "ins" || w == "insro" || w == "del" || w == "sub" || w == "has" || w == "hasp" then
+      match iclStep st (w :: ws) with
+      | some r => r
+      | none => (st, "bad-op")
+    else
     let r := stepT st.t line
-    ({ t := r.1, inFlow := if w == "finit" then true else if w == "init" || w == "new" then false else st.inFlow }, r.2)
+    ({ st with t := r.1, inFlow := if w == "finit" then true else if w == "init" || w == "new" then false else st.inFlow }, r.2)
   | [] => (st, "bad-op")
 
 def initModel : MState := {}
@@ -102,6 +188,8 @@ structure OState where
   seen : List Blk := []
   sackOn : Bool := false
   specified : Bool := false
+  inFlow : Bool := false                      -- the tracker is owned by a Flow (which catches `malformed_option`)
+  iclHist : List (Bool × Nat × Nat) := []    -- `icl` stream: (insert?, lo, hi), newest first
 
 def kv (ws : List String) (key : String) : Option String :=
   ws.findSome? (fun w => if w.startsWith (key ++ "=") then some ((w.drop (key.length + 1)).toString) else none)
@@ -141,8 +229,96 @@ def judgeState (st : OState) (ow : List String) (grid : Bool) : String :=
     else "ok"
   | _, _ => "violates unparsable-output"
 
-/-- spec mode: each input line is `<op> ||| <implementation output>` -/
-def specStep (st : OState) (line : String) : OState × String :=
+/-- **every history** (Props.C19.sane_preserved_by_any_packet / wire_total_any_bytes): whatever the traffic, the
+    reported state is a 32-bit ACK number and a canonical list of intervals with 32-bit edges, and the only exceptions
+    that leave the tracker are `malformed_option` and (from the parsing constructor) `malformed_packet` -/
+def safetyVerdict (out : String) : String :=
+  let ow := words out
+  let exc := match ow with
+    | "throw" :: e :: _ => if e == "malformed_option" || e == "malformed_packet" then "" else s!"exception {e}"
+    | _ => ""
+  if exc != "" then exc else
+  match kv ow "ack", kv ow "ivs" with
+  | some a, some i =>
+    match a.toNat?, parseIvs i with
+    | some ack, some ivs =>
+      if ack ≥ 4294967296 then "ack-not-32-bit"
+      else if !canonical ivs then "intervals-not-canonical"
+      else if !(ivs.all (fun q => q.2 < 4294967296)) then "edge-not-32-bit"
+      else ""
+    | _, _ => "unparsable-state"
+  | _, _ => ""
+
+/-- the SACK option a `segw` layout puts in front of `search_option`: the first `S` / `T` before any END octet -/
+def layoutSack (layout : String) : Option Char :=
+  (layout.toList.takeWhile (· != 'E')).find? (fun c => c == 'S' || c == 'T')
+
+/-! ### the interval-set parameter judged point-wise: a point is in the set iff the last operation covering it was an
+    insertion.  Membership is piecewise constant between the edges of the operations, so agreement on every edge and its
+    two neighbours together with canonical form determines the whole list. -/
+
+def iclPoints (h : List (Bool × Nat × Nat)) : List Nat :=
+  h.flatMap (fun (_, lo, hi) => [lo - 1, lo, lo + 1, hi - 1, hi, min (hi + 1) 4294967295])
+
+def iclExpected (h : List (Bool × Nat × Nat)) (p : Nat) : Bool :=
+  match h.find? (fun (_, lo, hi) => lo ≤ p && p ≤ hi) with
+  | some (ins, _, _) => ins
+  | none => false
+
+def memIvs (ivs : List (Nat × Nat)) (p : Nat) : Bool := ivs.any (fun q => q.1 ≤ p && p ≤ q.2)
+
+def iclVerdict (h : List (Bool × Nat × Nat)) (ow : List String) : String :=
+  match (kv ow "ivs").bind parseIvs, (kv ow "n").bind (·.toNat?), (kv ow "card").bind (·.toNat?) with
+  | some ivs, some n, some card =>
+    if !canonical ivs then "violates icl-canonical"
+    else if !(ivs.all (fun q => q.2 < 4294967296)) then "violates icl-edge-not-32-bit"
+    else match (iclPoints h).find? (fun p => memIvs ivs p != iclExpected h p) with
+      | some p => s!"violates icl-point-set p={p} impl={memIvs ivs p}"
+      | none =>
+        if n != ivs.length then "violates icl-iterative-size"
+        -- cardinality is computed in the domain type: the full set [0, 2^32-1] reports 0
+        else if card != wrap32 (ivs.foldl (fun acc q => acc + (q.2 + 1 - q.1)) 0) then "violates icl-cardinality"
+        else "ok"
+  | _, _, _ => "violates unparsable-output"
+
+def iclSpec (st : OState) (op : List String) (ow : List String) : Option (OState × String) :=
+  if ow == ["bad-op"] then (match op with
+    | w :: _ => if w == "icl" || w == "ins" || w == "insro" || w == "del" || w == "sub" || w == "has" || w == "hasp"
+                then some (st, "unspecified") else none
+    | [] => none) else
+  match op with
+  | ["icl"] => let st' := { st with iclHist := [] }; some (st', iclVerdict [] ow)
+  | [w, a, b] => match a.toNat?, b.toNat? with
+    | some lo, some hi =>
+      let lo := wrap32 lo; let hi := wrap32 hi
+      if w == "ins" || w == "del" || w == "sub" then
+        if lo > hi then some (st, "unspecified") else
+        let st' := { st with iclHist := (w == "ins", lo, hi) :: st.iclHist }
+        some (st', iclVerdict st'.iclHist ow)
+      else if w == "insro" then
+        let st' := if lo < hi then { st with iclHist := (true, lo, hi - 1) :: st.iclHist } else st
+        some (st', iclVerdict st'.iclHist ow)
+      else if w == "has" then
+        if lo > hi then some (st, "unspecified") else
+        let v := iclVerdict st.iclHist ow
+        if v != "ok" then some (st, v) else
+        -- subset of a canonical list = inside one interval; and point-wise on the edges
+        let want := iclExpected st.iclHist lo && iclExpected st.iclHist hi &&
+          ((iclPoints st.iclHist).all (fun p => !(lo ≤ p && p ≤ hi) || iclExpected st.iclHist p))
+        some (st, if kv ow "r" == some (if want then "1" else "0") then "ok" else s!"violates icl-contains impl={kv ow "r"}")
+      else none
+    | _, _ => none
+  | ["hasp", a] => match a.toNat? with
+    | some p =>
+      let v := iclVerdict st.iclHist ow
+      if v != "ok" then some (st, v) else
+      let want := iclExpected st.iclHist (wrap32 p)
+      some (st, if kv ow "r" == some (if want then "1" else "0") then "ok" else s!"violates icl-contains-point impl={kv ow "r"}")
+    | none => none
+  | _ => none
+
+/-- spec mode, the clauses of the conforming-history theorems -/
+def specCore (st : OState) (line : String) : OState × String :=
   match line.splitOn " ||| " with
   | [op, out] =>
     let ow := words out
@@ -153,7 +329,7 @@ def specStep (st : OState) (line : String) : OState × String :=
                   (st', judgeState st' ow false)
       | none => (unspec, "unspecified")
     | ["finit", a] => match a.toNat? with
-      | some k => let st' : OState := { A := k, seen := [], sackOn := true, specified := true }
+      | some k => let st' : OState := { A := k, seen := [], sackOn := true, specified := true, inFlow := true }
                   (st', judgeState st' ow false)
       | none => (unspec, "unspecified")
     | ["new"] => let st' : OState := { A := 0, seen := [], sackOn := false, specified := true }
@@ -170,6 +346,29 @@ def specStep (st : OState) (line : String) : OState × String :=
           | none => (st, "violates unparsable-output")
         else (st, "unspecified")
       | _, _ => (st, "unspecified")
+    | "segw" :: a :: layout :: _ :: es =>
+      -- Props.C19.ack_refines_wire / wire_malformed_sack / odd_edge_count_drops_last on the implementation's output
+      if ow == ["bad-op"] then (st, "unspecified") else
+      if !st.specified then (unspec, "unspecified") else
+      match a.toNat?, es.mapM String.toNat? with
+      | some k, some e =>
+        let sk := layoutSack layout
+        -- blocks the tracker must take from the packet: none without a SACK option or from an undecodable one;
+        -- a trailing odd edge is not looked at
+        let edges := if sk == some 'S' then (if e.length % 2 == 1 then e.dropLast else e) else []
+        match pairs edges with
+        | some blocks =>
+          let pkt : Pkt := ⟨k, blocks⟩
+          if pktOK st.A st.seen pkt then
+            let st' := { st with A := k, seen := if st.sackOn then st.seen ++ blocks else st.seen }
+            let thrown := ow.head? == some "throw"
+            let mustThrow := sk == some 'T' && st.sackOn && !st.inFlow
+            if thrown && !mustThrow then (st', s!"violates unexpected-exception {out.take 40}")
+            else if mustThrow && !(ow.take 2 == ["throw", "malformed_option"]) then (st', "violates malformed-sack-not-reported")
+            else (st', judgeState st' ow (!thrown))
+          else (unspec, "unspecified")
+        | none => (unspec, "unspecified")
+      | _, _ => (unspec, "unspecified")
     | kind :: a :: es =>
       if (kind == "pkt" || kind == "pktw") && st.specified then
         match a.toNat?, (if es == ["-"] then some [] else es.mapM String.toNat?).bind pairs with
@@ -183,6 +382,19 @@ def specStep (st : OState) (line : String) : OState × String :=
         | _, _ => (unspec, "unspecified")
       else (unspec, "unspecified")
     | _ => (unspec, "unspecified")
+  | _ => (st, "bad-line")
+
+/-- spec mode: each input line is `<op> ||| <implementation output>` -/
+def specStep (st : OState) (line : String) : OState × String :=
+  match line.splitOn " ||| " with
+  | [op, out] =>
+    match iclSpec st (words op) (words out) with
+    | some r => r
+    | none =>
+      let (st', v) := specCore st line
+      if v.startsWith "violates" then (st', v) else
+      let sv := safetyVerdict out
+      if sv != "" then (st', s!"violates any-history {sv}") else (st', v)
   | _ => (st, "bad-line")
 
 def initSpec : OState := {}
